@@ -33,19 +33,19 @@ def CatCfg.good : CatCfg :=
 def CatCfg.SplitGood (c : CatCfg) : Prop :=
   c.splitStartOp = .le ∧ c.splitEndOp = .ge ∧ c.splitBumpsVersion = true
 
-instance (c : CatCfg) : Decidable c.SplitGood := by unfold CatCfg.SplitGood; exact inferInstance
+instance CatCfg.decSplitGood (c : CatCfg) : Decidable c.SplitGood := by unfold CatCfg.SplitGood; exact inferInstance
 
 def CatCfg.TransGood (c : CatCfg) : Prop := c.transitions = [(0, 1), (1, 2), (1, 3), (2, 3)]
 
-instance (c : CatCfg) : Decidable c.TransGood := by unfold CatCfg.TransGood; exact inferInstance
+instance CatCfg.decTransGood (c : CatCfg) : Decidable c.TransGood := by unfold CatCfg.TransGood; exact inferInstance
 
 def CatCfg.MergeGood (c : CatCfg) : Prop := c.mergeRule = .adjacent ∧ c.mergeBumpsVersion = true
 
-instance (c : CatCfg) : Decidable c.MergeGood := by unfold CatCfg.MergeGood; exact inferInstance
+instance CatCfg.decMergeGood (c : CatCfg) : Decidable c.MergeGood := by unfold CatCfg.MergeGood; exact inferInstance
 
 def CatCfg.Good (c : CatCfg) : Prop := c.SplitGood ∧ c.MergeGood ∧ c.TransGood
 
-instance (c : CatCfg) : Decidable c.Good := by unfold CatCfg.Good; exact inferInstance
+instance CatCfg.decGood (c : CatCfg) : Decidable c.Good := by unfold CatCfg.Good; exact inferInstance
 
 abbrev Catalog := List Meta
 
@@ -157,7 +157,7 @@ def capply (c : CatCfg) (rs : Catalog) (op : COp) : Catalog := (cstep c rs op).1
 
 def covers (rs : Catalog) (k : Bytes) : Prop := ∃ r ∈ rs, contains r k
 
-instance (rs : Catalog) (k : Bytes) : Decidable (covers rs k) := by unfold covers; exact inferInstance
+instance decCovers (rs : Catalog) (k : Bytes) : Decidable (covers rs k) := by unfold covers; exact inferInstance
 
 /-! Manifest side: every catalog mutation is logged as a region edit; reload replays them. -/
 
